@@ -538,6 +538,33 @@ def extra_subsecond_shift(ctx, rec):
             rec.session(steps, dict(CONCS[rep % 2], tunit=0.5))
 
 
+def extra_tighten_boxes(ctx, rec):
+    """C16: bounding boxes tightened until nothing is left inside (an edge moved past the opposite one), on tracks
+    that already have positions outside the looser box on either side"""
+    g = gen_qc.Gen(ctx.seed + 127, size=ctx.pick(6, 12))
+    r = g.r
+    for rep in range(ctx.pick(80, 600)):
+        c = g.base("loc")
+        pts = [(x, y) for x, y in zip(c["lon"], c["lat"]) if x != gen_qc.NA and y != gen_qc.NA]
+        if len(c["p"]["bbox"]) not in (0, 4) or c["p"]["shapes"] != "same" or len(pts) < 2 or len(c["lon"]) != len(c["lat"]):
+            continue
+        xs, ys = sorted(p[0] for p in pts), sorted(p[1] for p in pts)
+        loose = [xs[0] + r.choice([0, 1]), ys[0] - r.choice([0, 1]), xs[-1] - r.choice([0, 1]), ys[-1] + r.choice([0, 1])]
+        if loose[0] > loose[2] or loose[1] > loose[3]:
+            continue
+        c["p"]["bbox"] = loose
+        steps = [({"kind": "base", "i": 0, "k": 0}, c)]
+        mx, my = (loose[0] + loose[2]) // 2, (loose[1] + loose[3]) // 2
+        for k, bb in enumerate([[loose[2], loose[1], loose[0], loose[3]], [loose[0], loose[3], loose[2], loose[1]],
+                                [mx + 1, loose[1], mx, loose[3]], [mx, my, mx, my], [loose[2], loose[3], loose[0], loose[1]]]):
+            if bb[0] <= bb[2] and bb[1] <= bb[3] and bb != [mx, my, mx, my]:
+                continue
+            d = json.loads(json.dumps(c))
+            d["p"]["bbox"] = bb
+            steps.append(({"kind": "tighten", "i": 0, "k": k}, d))
+        rec.session(steps, CONCS[rep % 2])
+
+
 def extra_far_origins(ctx, rec):
     """C17: the same relative time axis on origins centuries apart (a shift by a constant too large for the model's
     integers, so it is expressed through the concretisation): 1800, 1970, 2020, 2200 -- where nanosecond stamps leave
@@ -622,15 +649,19 @@ def extra_big_offsets(ctx, rec):
 def extra_purity(ctx, rec):
     """C01: arguments unchanged / repeatability under every carrier (aliasing bugs depend on the carrier)"""
     g = gen_qc.Gen(ctx.seed + 53, size=ctx.pick(6, 12))
-    datas = ["ma_nan", "ma_junk", "series", "series_idx", "series_shuf", "f32", "list_none", "tuple_nan", "dask"]
+    datas = ["ma_nan", "ma_junk", "ma_mixed", "series", "series_idx", "series_shuf", "f32", "list_none", "tuple_nan", "dask", "ma_i64"]
     times = ["dtindex", "series_naive", "series_utc", "series_utc_us", "dtindex_utc_s", "epoch_f64", "epoch_list", "pydt", "dt64s"]
     for fn in ALL_FNS:
-        for rep in range(ctx.pick(8, 40)):
+        for rep in range(ctx.pick(33, 88)):
             c = g.base(fn)
             if fn == "valid" and c["p"]["kind"] == "time":
                 continue
             conc = dict(CONCS[rep % 2])
             xc = datas[rep % len(datas)]
+            if xc == "ma_mixed" and c["x"]:
+                # at least two missing values: one masked, one a plain unmasked NaN
+                for i in g.r.sample(range(len(c["x"])), min(2, len(c["x"]))):
+                    c["x"][i] = gen_qc.NA
             if (fn == "press" and xc == "list_none") or (fn == "valid" and xc in ("list_none", "tuple_nan")):
                 xc = "ma_junk"
             conc.update({"xc": xc, "ac": datas[(rep + 3) % len(datas)], "tc": times[rep % len(times)]})
@@ -710,7 +741,8 @@ PLAN = {
                      M("tighten_b", ["att", "dens", "speed", "clim"], ["tighten"], 1, budget=10000)],
                     [M("tighten_a", ["gross", "valid", "spike", "roc", "flat", "loc"], ["tighten"], 3, big=True, budget=120000),
                      M("tighten_b", ["att", "dens", "speed", "clim"], ["tighten"], 2, budget=120000)]),
-            "random": {"fns": NOPRESS, "count": (500, 8000), "kinds": ["tighten", "tighten", "tighten"], "size": (8, 24)}},
+            "random": {"fns": NOPRESS, "count": (500, 8000), "kinds": ["tighten", "tighten", "tighten"], "size": (8, 24)},
+            "extra": [extra_tighten_boxes]},
     "C17": {"mc": T([M("transforms", NOPRESS, ["shiftv", "negate", "shiftt", "shiftboth", "reverse"], 2, budget=14000),
                      M("locality", ["spike", "roc", "flat", "dens", "gross", "loc"], ["perturb"], 3, budget=10000)],
                     [M("transforms", NOPRESS, ["shiftv", "negate", "shiftt", "shiftboth", "reverse"], 3, budget=120000),
